@@ -62,7 +62,7 @@ PROPS = {
         "technique": "deterministic simulation: add-field patches and active-version switches interleaved with writes and merges between nodes on different schema versions; before/after dumps + reference model",
         "rule": E1_RULE + "; plus schema steps (patch add field with/without activation, switch active version); non-trivial additionally needs >=1 schema step (counted in schema_patches / schema_switches)",
         "real_vs_stub": REAL_E1, "assumptions": ASSUME_COMMON,
-        "probes": ["schema_patches", "schema_switches", "merge_of_field_unknown_to_receiver", "converged_checked"],
+        "probes": ["schema_patches", "schema_switches", "merge_of_field_unknown_to_receiver", "write_of_field_ignored_earlier", "converged_checked"],
         "quick": {"count": 100, "budget_s": 60, "workers": 16},
         "thorough": {"count": 100000, "budget_s": 1500, "workers": 16},
         "text": "Around every patch / version switch the values, ids and commit history of all documents on that node are compared; the reference model keeps being checked under the active version (added fields null, earlier values back after switching forth); merges between nodes on different versions must not fail and nodes must agree on the fields both know.",
